@@ -1,6 +1,12 @@
 package rules
 
-import "golang.org/x/tools/go/ssa"
+import (
+	"strings"
+
+	. "abverif/internal/engine"
+
+	"golang.org/x/tools/go/ssa"
+)
 
 // seq runs several rule groups under one property. Sub-rules borrowed from a
 // sibling property keep their own rule prefix in obligation keys (e.g. a
@@ -20,12 +26,20 @@ var All = map[string]func(*Ctx){
 		c.flushUnmodified("C01.queue")
 		c.presenceRule("C01.presence")
 		c.oauthPIDCodec("C01.oauth-pid")
+		c.compareWhole("C01.compare-whole", nil)
+		issuers := map[*ssa.Function]bool{}
+		for _, s := range c.Issuances() {
+			issuers[s.Fn] = true
+		}
+		c.loopVarCapture("C01.loop-capture", func(f *ssa.Function) bool { return issuers[f] })
 	}, withExplanation(C05)),
 	"C02": seq(C02, (*Ctx).c12Recovery, (*Ctx).c12SMS, (*Ctx).c01Pending, func(c *Ctx) {
 		c.beforeHandlersIssueNothing("C02.before-no-issue")
 		c.localizeFallback("C02.status-text")
 		c.halfAuthUpgradeGated("C02.halfauth-upgrade")
 		c.registryStable("C02.registry")
+		c.secretEntropy("C02.entropy")
+		c.compareWhole("C02.compare-whole", exactPkgs("ab/otp/twofactor/sms2fa", "ab/otp/twofactor/totp2fa"))
 	}),
 	"C03": seq(C03, func(c *Ctx) {
 		c.ctxUserFirst("C03.subject")
@@ -41,6 +55,8 @@ var All = map[string]func(*Ctx){
 		c.utcInstants("C04.utc")
 		c.registryStable("C04.registry")
 		c.ctxUserFirst("C04.subject")
+		c.loginLooksUpFirst("C04.lookup-first")
+		c.compareWhole("C04.compare-whole", exactPkgs("ab/otp", "ab/otp/twofactor/sms2fa", "ab/otp/twofactor/totp2fa"))
 	}),
 	"C05": seq(C05, func(c *Ctx) {
 		c.moduleCopied("C05.instance")
@@ -48,10 +64,12 @@ var All = map[string]func(*Ctx){
 		c.secretEntropy("C05.entropy")
 		c.utcInstants("C05.utc")
 		c.supersededOnEveryRequest("C05.supersede-always")
+		c.compareWhole("C05.compare-whole", inPkgs("ab/confirm", "ab/recover"))
 	}),
 	"C06": seq(C06, func(c *Ctx) { c.ctxUserFirst("C06.subject") }, withExplanation(C07)),
 	"C07": seq(C07, func(c *Ctx) {
 		c.logoutClear("C07.logout-cookie", "C07.logout-cookie", true)
+		c.flushUnmodified("C07.queue")
 		c.rememberRevokeWire("C07.revoke-wire", "C07.revoke")
 		c.revokeSubject("C07.revoke-subject")
 		c.ctxUserFirst("C07.subject")
@@ -66,6 +84,7 @@ var All = map[string]func(*Ctx){
 		c.apiStatusVerbatim("C08.api-status")
 		c.refusalConfigMapped("C08.refusal-config")
 		c.routeRequirements("C08.route-reqs")
+		c.clientStoresPerRequest("C08.stores-per-request")
 	}),
 	"C09": seq(C09, (*Ctx).flushDiscipline, func(c *Ctx) {
 		c.flushUnmodified("C09.queue")
@@ -80,26 +99,39 @@ var All = map[string]func(*Ctx){
 	"C11": seq(C11, func(c *Ctx) {
 		c.noStateAfterWrite("C11.before-write")
 		c.readStateErrors("C11.read-err")
+		c.clientStoresPerRequest("C11.stores-per-request")
 	}),
 	"C12": seq(C12, (*Ctx).smsInvariant, func(c *Ctx) {
 		c.localizeFallback("C12.status-text")
 		c.secretEntropy("C12.entropy")
+		c.compareWhole("C12.compare-whole", exactPkgs("ab/otp", "ab/otp/twofactor/sms2fa", "ab/otp/twofactor/totp2fa"))
+		c.issuanceGated("C12.issued-only", exactPkgs("ab/otp", "ab/otp/twofactor/sms2fa", "ab/otp/twofactor/totp2fa"))
 	}),
 	"C13": seq(C13, (*Ctx).c12Recovery, func(c *Ctx) {
 		c.localizeFallback("C13.status-text")
 		c.halfAuthUpgradeGated("C13.halfauth-upgrade")
 		c.secretEntropy("C13.entropy")
-	}, withExplanation(C09), withExplanation(C10)),
+		c.compareWhole("C13.compare-whole", inPkgs("ab/otp/twofactor"))
+	}, withExplanation(C09), withExplanation(C10), withExplanation(func(c *Ctx) {
+		c.gateOnly = true
+		C08(c)
+		c.gateOnly = false
+	})),
 	"C14": seq(C14, func(c *Ctx) {
 		c.flushUnmodified("C14.queue")
 		c.providerErrors("C14.details-err")
 		c.providerUIDVerbatim("C14.details-uid")
 		c.secretEntropy("C14.entropy")
+		c.loopVarCapture("C14.loop-capture", inPkgs("ab/oauth2"))
 	}),
 	"C15": seq(C15, func(c *Ctx) {
 		c.oauthParamsReset("C15.params-reset")
 		c.followRedirSites("C15.follow-sites")
-	}),
+	}, borrow(C20, "C20.", "C15.shared.", func(o Obligation) bool {
+		// the return target is this request's: no object shared between requests
+		// in the handlers that compute it
+		return strings.Contains(o.Func, "ab/oauth2.") || strings.Contains(strings.ToLower(o.Func), "redirect")
+	})),
 	"C16": seq(C16, func(c *Ctx) {
 		c.verdictNotAnError("C16.verdict")
 		c.ctxUserFirst("C16.subject")
@@ -110,6 +142,7 @@ var All = map[string]func(*Ctx){
 		c.lockWiring("C16.lock-wire")
 		c.lockAnswersLocked("C16.locked-answer")
 		c.recoverStartQuiet("C16.recover-quiet")
+		c.loginLooksUpFirst("C16.lookup-first")
 		if uls := c.P.FuncOpt("(*ab/lock.Lock).updateLockedState"); uls != nil {
 			c.lockEveryAttempt("C16.every-attempt", uls)
 		}
@@ -117,7 +150,12 @@ var All = map[string]func(*Ctx){
 			c.lockStateStructure(uls)
 		}
 	}),
-	"C17": seq(C17, (*Ctx).hasherPassThrough, (*Ctx).c19Whitelist),
+	"C17": seq(C17, (*Ctx).hasherPassThrough, (*Ctx).c19Whitelist,
+		// what is mailed is assembled from this request's values only: the rules
+		// on shared state (C20), for the functions that build and send mail
+		borrow(C20, "C20.", "C17.mail-shared.", func(o Obligation) bool {
+			return strings.Contains(strings.ToLower(o.Func+" "+o.Pos), "mail")
+		})),
 	"C18": seq(C18, func(c *Ctx) {
 		c.readStateErrors("C18.read-err")
 		c.flushSites("C18.flush-sites")
@@ -125,10 +163,59 @@ var All = map[string]func(*Ctx){
 		c.storeBeforeSession("C18.store-before-session")
 		c.zeroValueInvoke("C18.zero-value", nil)
 		c.assertAfterErrCheck("C18.assert-after-check")
-	}),
+		c.nilResultUse("C18.nil-result")
+	}, borrow(C05, "C05.supersede", "C18.mail-after-save", func(o Obligation) bool { return o.Rule == "C05.supersede" })),
 	"C19": seq(C19, (*Ctx).hasherPassThrough),
 	"C20": seq(C20, func(c *Ctx) {
 		c.moduleCopied("C20.instance")
 		c.ctxDataReadOnly("C20.ctx-data")
 	}),
+}
+
+// inPkgs selects the functions of the named packages and of the packages below them.
+func inPkgs(pkgs ...string) func(*ssa.Function) bool {
+	return func(f *ssa.Function) bool {
+		p := pkgOf(f)
+		for _, q := range pkgs {
+			if p == q || (len(p) > len(q) && p[:len(q)] == q && p[len(q)] == '/') {
+				return true
+			}
+		}
+		return false
+	}
+}
+
+func exactPkgs(pkgs ...string) func(*ssa.Function) bool {
+	return func(f *ssa.Function) bool {
+		p := pkgOf(f)
+		for _, q := range pkgs {
+			if p == q {
+				return true
+			}
+		}
+		return false
+	}
+}
+
+// borrow runs a sibling property's rules and keeps the obligations selected
+// by keep under this property's own prefix: the sibling's rule, applied to
+// the functions this property depends on.
+func borrow(f func(*Ctx), fromPfx, toPfx string, keep func(Obligation) bool) func(*Ctx) {
+	return func(c *Ctx) {
+		orig := c.R
+		tmp := NewReport(c.P, orig.Property, orig.Tier)
+		c.R = tmp
+		f(c)
+		c.R = orig
+		for _, o := range tmp.Obls {
+			if !strings.HasPrefix(o.Rule, fromPfx) || o.Status == Note || !keep(o) {
+				continue
+			}
+			o.Rule = toPfx + o.Rule[len(fromPfx):]
+			if strings.HasPrefix(o.Key, fromPfx) {
+				o.Key = toPfx + o.Key[len(fromPfx):]
+			}
+			orig.Add(o)
+		}
+	}
 }
